@@ -11,6 +11,31 @@ Lemma search_subtree_span c u : wft (plug c u) ->
   nth_error (flatten (plug c u)) b = Some (root u).
 Proof. intro H. cbv zeta. split; [apply search_plug; auto|]. split; [apply get_slice_plug|apply nth_plug]. Qed.
 
+(* the same through Python's index convention: b or b - len *)
+Lemma search_subtree_py_span c u : wft (plug c u) ->
+  let l := flatten (plug c u) in let b := length (cpre c) in
+  search_subtree_py l (Z.of_nat b) = Ok (b, (b + size u)%nat) /\
+  search_subtree_py l (Z.of_nat b - zlen l) = Ok (b, (b + size u)%nat) /\
+  (forall i, i < - zlen l -> search_subtree_py l i = Err EIndex).
+Proof.
+  intro H. cbv zeta. pose proof (search_plug c u H) as S.
+  assert (L : (length (cpre c) < length (flatten (plug c u)))%nat).
+  { rewrite flatten_plug, !app_length, length_flatten. pose proof (size_pos u). lia. }
+  unfold search_subtree_py, zlen. repeat split.
+  - replace (Z.of_nat (length (cpre c)) <? 0) with false by (symmetry; apply Z.ltb_ge; lia).
+    replace (Z.of_nat (length (cpre c)) <? 0) with false by (symmetry; apply Z.ltb_ge; lia).
+    rewrite Nat2Z.id. exact S.
+  - replace (Z.of_nat (length (cpre c)) - Z.of_nat (length (flatten (plug c u))) <? 0) with true
+      by (symmetry; apply Z.ltb_lt; lia).
+    replace (Z.of_nat (length (cpre c)) - Z.of_nat (length (flatten (plug c u))) + Z.of_nat (length (flatten (plug c u))))
+      with (Z.of_nat (length (cpre c))) by lia.
+    replace (Z.of_nat (length (cpre c)) <? 0) with false by (symmetry; apply Z.ltb_ge; lia).
+    rewrite Nat2Z.id. exact S.
+  - intros i Hi. replace (i <? 0) with true by (symmetry; apply Z.ltb_lt; lia).
+    replace (i + Z.of_nat (length (flatten (plug c u))) <? 0) with true by (symmetry; apply Z.ltb_lt; lia).
+    reflexivity.
+Qed.
+
 Lemma every_index_roots_a_subtree t i : (i < length (flatten t))%nat ->
   exists c u, t = plug c u /\ length (cpre c) = i.
 Proof. rewrite length_flatten. apply decompose. Qed.
